@@ -32,5 +32,22 @@ for mid in ids:
     else:
         verdict = 'MISSED'
     results[mid] = dict(verdict=verdict, how=kinds, repo_head=head, seconds=round(time.time() - t), lines=[l for l in out.splitlines() if 'done:' in l or 'ERROR' in l][-2:])
+    # a change that its own property's check cannot observe may be caught by the check of the property it really touches (seeded/ALSO.json)
+    also = json.load(open('seeded/ALSO.json')).get(mid, []) if os.path.exists('seeded/ALSO.json') else []
+    if verdict == 'MISSED' and also:
+        for other in also:
+            before = set(glob.glob(f'replays/{other}-*.json'))
+            r2 = subprocess.run(['tools/try_mutant.sh', f'seeded/{mid}/patch.diff', other], capture_output=True, text=True)
+            new2 = sorted(set(glob.glob(f'replays/{other}-*.json')) - before)
+            k2 = {}
+            for f in new2:
+                kk = json.load(open(f)).get('kind', '?')
+                k2[kk] = k2.get(kk, 0) + 1
+                os.remove(f)
+            if k2:
+                results[mid]['verdict'] = f'caught-by-{other}'
+                results[mid]['how'] = k2
+                verdict, kinds = results[mid]['verdict'], k2
+                break
     print(mid, verdict, kinds, flush=True)
     json.dump(results, open(res_path, 'w'), indent=1, sort_keys=True)
